@@ -163,6 +163,9 @@ class C01(Check):
                 ctx.ev("update", kind, lv, how, None if ret is None else [int(x) for x in ret])
                 aft_old = set(tuple(int(x) for x in t) for t in cs.old_index_set)
                 aft_act = set(tuple(int(x) for x in t) for t in cs.active_index_set)
+                if not (before[0] | before[1]) <= (aft_old | aft_act):
+                    ctx.violate("refinement_loses_index", {"dim": d}, "update(%s) removed %s from the index set" % (
+                        lv, sorted((before[0] | before[1]) - (aft_old | aft_act))[:4]))
                 if was_active:
                     ctx.probe("update_refined")
                     if cs.lmax_adaptive > before[2]:
@@ -217,6 +220,9 @@ class C01(Check):
                 f = l[:k] + (l[k] + 1,) + l[k + 1:]
                 if f in I:
                     ctx.violate("active_has_forward_neighbour", sig, "active %s has forward neighbour %s in the set" % (l, f))
+        if tuple([lmin] * d) not in I:
+            # "hence they sum to 1 overall": the total is the dominance sum of the minimum level vector
+            ctx.violate("index_set_contains_minimum", sig, "the minimum level vector %s is not in the index set %s" % ([lmin] * d, sorted(I)[:10]))
         ctx.ok("set_invariants")
         scheme = cs.getCombiScheme(do_print=False)
         m = _as_map(scheme, ctx, "adaptive", d)
